@@ -22,7 +22,9 @@ NAMES = ["id", "user_id", "first_name_2", "a", "x1", "y_1", "get_2fa", "_lead", 
 VALUE_TYPES = [("i32", False), ("String", False), ("Option<i32>", True), ("Option<String>", True), ("Vec<u8>", False), ("Msg", False),
                ("Option<Msg>", True), ("bool", False), ("Option<Vec<Option<i32>>>", True), ("&str", False),
                # project types that merely share a name with a framework type the statement lists only in its qualified form
-               ("Request", False), ("models::Request", False), ("Option<Request>", True)]
+               ("Request", False), ("models::Request", False), ("Option<Request>", True),
+               # Option written through a path is as omittable as the prelude's spelling
+               ("std::option::Option<i32>", True), ("core::option::Option<String>", True), ("::std::option::Option<Msg>", True), ("option::Option<bool>", True)]
 CASES = ["camelCase", "snake_case", "PascalCase", "SCREAMING_SNAKE_CASE", "kebab-case", "SCREAMING-KEBAB-CASE", "lowercase", "UPPERCASE"]
 HECK_KEY = {"camelCase": "camelCase", "snake_case": "snake_case"}
 
